@@ -178,10 +178,52 @@ func (p *prop) Gen(r *vh.Rng, tier string, n int) []vh.Case {
 			lines = append(lines, fmt.Sprintf("bg %d", i))
 			bound += 3
 		}
-		for c := 0; c <= bound; c++ {
+		secondGen := cr.Chance(3, 5)
+		if !secondGen {
+			for c := 0; c <= bound; c++ {
+				lines = append(lines, fmt.Sprintf("crash %d", c))
+			}
+			cases = append(cases, vh.Case{Lines: lines, Nontrivial: multi && bound >= 6})
+			continue
+		}
+		// second process generation: kill somewhere after the files exist (also inside snapshots),
+		// restart with the leftovers in place, shrink the state, snapshot, crash again everywhere
+		prefix := 2 * nf
+		lines = append(lines, fmt.Sprintf("restart %d", cr.Range(prefix, bound)))
+		bound2 := 0
+		for s := cr.Range(2, 5); s > 0; s-- {
+			i := cr.Intn(nf)
+			row := func() int { return cr.Pick(0, 1, 2, 3) }
+			col := func() int { return cr.Pick(0, 1, 2, 3, 5) }
+			if kinds[i] == "int" {
+				lines = append(lines, fmt.Sprintf("setval %d %d %d", i, col(), cr.Range(-1, 1)))
+				bound2 += depth + 2
+			} else {
+				switch x := cr.Intn(10); {
+				case x < 4:
+					lines = append(lines, fmt.Sprintf("clearrow %d %d", i, row()))
+				case x < 6:
+					lines = append(lines, fmt.Sprintf("clear %d %d %d", i, row(), col()))
+					bound2++
+				case x < 8:
+					lines = append(lines, fmt.Sprintf("setrow %d %d -", i, row()))
+				default:
+					lines = append(lines, fmt.Sprintf("set %d %d %d", i, row(), col()))
+					bound2 += 2
+				}
+			}
+			lines = append(lines, fmt.Sprintf("bg %d", i))
+			bound2 += 3
+			if cr.Chance(1, 2) {
+				lines = append(lines, fmt.Sprintf("snap %d", i))
+				bound2 += 3
+			}
+		}
+		for c := 0; c <= bound2; c++ {
 			lines = append(lines, fmt.Sprintf("crash %d", c))
 		}
-		cases = append(cases, vh.Case{Lines: lines, Nontrivial: multi && bound >= 6})
+		cases = append(cases, vh.Case{Lines: lines, Nontrivial: true})
+		vh.Count("second-generation-cases")
 	}
 	return cases
 }
@@ -239,7 +281,7 @@ func quoted(args string) [][]byte {
 }
 
 // parseTrace turns strace output into events on paths below root (and the marker file).
-func parseTrace(path, root, markPath string) ([]event, error) {
+func parseTrace(path, root, markPath string, existing []string) ([]event, error) {
 	f, err := os.Open(path)
 	if err != nil {
 		return nil, err
@@ -249,6 +291,9 @@ func parseTrace(path, root, markPath string) ([]event, error) {
 	sc.Buffer(make([]byte, 1<<20), 1<<28)
 	pendingLine := map[string]string{}
 	exists := map[string]bool{}
+	for _, e := range existing {
+		exists[e] = true
+	}
 	var evs []event
 	for sc.Scan() {
 		line := sc.Text()
@@ -353,8 +398,8 @@ func parseTrace(path, root, markPath string) ([]event, error) {
 	return evs, nil
 }
 
-func tokenPath(root, p string) string {
-	b := strings.TrimPrefix(p, root+"/")
+func tokenPath(p string) string {
+	b := p
 	switch {
 	case b == "keys":
 		return "k"
@@ -374,8 +419,11 @@ type group struct {
 	last  int // index (into the fs-op list) of the last real operation of the group
 }
 
-func replayFS(ops []fsop, n int) map[string][]byte {
+func replayFS(base map[string][]byte, ops []fsop, n int) map[string][]byte {
 	files := map[string][]byte{}
+	for k, v := range base {
+		files[k] = append([]byte(nil), v...)
+	}
 	for _, o := range ops[:n] {
 		switch o.kind {
 		case "create":
@@ -400,12 +448,12 @@ func replayFS(ops []fsop, n int) map[string][]byte {
 }
 
 // recoverState materialises the files and opens them with the real open path.
-func recoverState(root string, files map[string][]byte, kinds []string, dir string) string {
+func recoverState(files map[string][]byte, kinds []string, dir string) string {
 	_ = os.RemoveAll(dir)
 	_ = os.MkdirAll(dir, 0o755)
 	defer os.RemoveAll(dir)
 	for p, d := range files {
-		_ = os.WriteFile(filepath.Join(dir, strings.TrimPrefix(p, root+"/")), d, 0o666)
+		_ = os.WriteFile(filepath.Join(dir, p), d, 0o666)
 	}
 	var parts []string
 	for i, kd := range kinds {
@@ -456,32 +504,43 @@ func recoverState(root string, files map[string][]byte, kinds []string, dir stri
 
 // ---------------------------------------------------------------- parent: one case
 
-func (p *prop) Exec(lines []string) []string {
-	outs := make([]string, len(lines))
-	dir, err := os.MkdirTemp("", "c09-")
-	if err != nil {
-		panic(err)
-	}
-	defer os.RemoveAll(dir)
-	root := filepath.Join(dir, "data")
+// generation = one process lifetime: the calls between two `restart` lines.
+type generation struct {
+	base   map[string][]byte // files (path below root) the process found when it started
+	ops    []fsop            // recorded operations of the process (after its start-up)
+	groups []group
+}
+
+func garbage(n int) []byte { return bytes.Repeat([]byte{0xAB}, n) }
+
+// runGeneration executes the call lines idx (indices into lines) in a strace'd child on a fresh
+// root holding base, and fills outs for them.
+func runGeneration(dir string, gen int, base map[string][]byte, kinds []string, keysOpen bool,
+	lines []string, idx []int, outs []string) (g *generation, newKinds []string, newKeysOpen bool, ok bool) {
+	root := filepath.Join(dir, fmt.Sprintf("data%d", gen))
 	_ = os.MkdirAll(root, 0o755)
-	markPath := filepath.Join(dir, "MARK")
-	opsFile := filepath.Join(dir, "ops.txt")
-	var callIdx []int
+	var existing []string
+	for p, d := range base {
+		_ = os.WriteFile(filepath.Join(root, p), d, 0o666)
+		existing = append(existing, filepath.Join(root, p))
+	}
+	markPath := filepath.Join(dir, fmt.Sprintf("MARK%d", gen))
+	opsFile := filepath.Join(dir, fmt.Sprintf("ops%d.txt", gen))
 	var buf bytes.Buffer
-	var kinds []string
-	for i, l := range lines {
-		if strings.HasPrefix(l, "crash") {
-			continue
-		}
-		callIdx = append(callIdx, i)
-		fmt.Fprintf(&buf, "%d %s\n", i, l)
+	for _, kd := range kinds {
+		fmt.Fprintf(&buf, "R %s\n", kd) // reopen directive: fragment of that kind exists already
+	}
+	if keysOpen {
+		fmt.Fprintf(&buf, "K\n")
+	}
+	for _, i := range idx {
+		fmt.Fprintf(&buf, "%d %s\n", i, lines[i])
 	}
 	if err := os.WriteFile(opsFile, buf.Bytes(), 0o644); err != nil {
 		panic(err)
 	}
 	self, _ := os.Executable()
-	tracePath := filepath.Join(dir, "trace.txt")
+	tracePath := filepath.Join(dir, fmt.Sprintf("trace%d.txt", gen))
 	cmd := exec.Command("strace", "-f", "-qq", "-y", "-xx", "-s", "4000000",
 		"-e", "trace=openat,write,pwrite64,rename,renameat,renameat2,ftruncate,unlink,unlinkat",
 		"-o", tracePath, self, "--child", root, markPath, opsFile)
@@ -497,47 +556,68 @@ func (p *prop) Exec(lines []string) []string {
 	case <-time.After(120 * time.Second):
 		_ = cmd.Process.Kill()
 		<-done
-		for i := range outs {
+		for _, i := range idx {
 			outs[i] = "panic:timeout"
 		}
-		return outs
+		return nil, kinds, keysOpen, false
 	}
-	// results of the calls, as printed by the child: "<line index> <ok|err|bad-ref|bad-op> [kind]"
+	newKinds = append([]string(nil), kinds...)
+	newKeysOpen = keysOpen
 	results := map[int]string{}
 	for _, l := range strings.Split(stdout.String(), "\n") {
 		ws := strings.Fields(l)
 		if len(ws) >= 2 {
-			i, _ := strconv.Atoi(ws[0])
+			i, err := strconv.Atoi(ws[0])
+			if err != nil {
+				continue
+			}
 			results[i] = ws[1]
 			if len(ws) >= 3 && strings.HasPrefix(ws[2], "kind=") {
-				kinds = append(kinds, strings.TrimPrefix(ws[2], "kind="))
+				newKinds = append(newKinds, strings.TrimPrefix(ws[2], "kind="))
+			}
+			if len(ws) >= 3 && ws[2] == "keysopen" {
+				newKeysOpen = true
 			}
 		}
 	}
-	evs, err := parseTrace(tracePath, root, markPath)
+	evs, err := parseTrace(tracePath, root, markPath, existing)
 	if err != nil {
 		panic(err)
 	}
-	// split into fs operations and per-call ranges
-	var ops []fsop
+	g = &generation{base: map[string][]byte{}}
+	for k, v := range base {
+		g.base[k] = v
+	}
 	start := map[int]int{}
 	stop := map[int]int{}
+	seenMark := false
+	var pre []fsop
 	for _, e := range evs {
 		if e.mark != "" {
+			seenMark = true
 			i, _ := strconv.Atoi(e.mark[1:])
 			if e.mark[0] == 'B' {
-				start[i] = len(ops)
+				start[i] = len(g.ops)
 			} else {
-				stop[i] = len(ops)
+				stop[i] = len(g.ops)
 			}
 			continue
 		}
-		ops = append(ops, e.op)
+		o := e.op
+		o.path = strings.TrimPrefix(o.path, root+"/")
+		o.to = strings.TrimPrefix(o.to, root+"/")
+		if !seenMark {
+			pre = append(pre, o) // start-up of the process (reopening): part of what the calls find
+			vh.Count("startup-fsops")
+			continue
+		}
+		g.ops = append(g.ops, o)
 	}
-	// groups
-	var groups []group
-	for j, o := range ops {
-		tp := tokenPath(root, o.path)
+	if len(pre) > 0 {
+		g.base = replayFS(g.base, pre, len(pre))
+	}
+	for j, o := range g.ops {
+		tp := tokenPath(o.path)
 		var tok string
 		switch o.kind {
 		case "create":
@@ -545,8 +625,8 @@ func (p *prop) Exec(lines []string) []string {
 		case "write":
 			if strings.HasPrefix(tp, "s") {
 				tok = "w:" + tp + ":*"
-				if n := len(groups); n > 0 && groups[n-1].token == tok && ops[groups[n-1].last].kind == "write" && groups[n-1].last == j-1 {
-					groups[n-1].last = j
+				if n := len(g.groups); n > 0 && g.groups[n-1].token == tok && g.ops[g.groups[n-1].last].kind == "write" && g.groups[n-1].last == j-1 {
+					g.groups[n-1].last = j
 					vh.Count("snapshot-write-parts")
 					continue
 				}
@@ -554,27 +634,27 @@ func (p *prop) Exec(lines []string) []string {
 				tok = fmt.Sprintf("w:%s:%d", tp, len(o.data))
 			}
 		case "rename":
-			tok = "r:" + tp + ">" + tokenPath(root, o.to)
+			tok = "r:" + tp + ">" + tokenPath(o.to)
 		case "unlink":
 			tok = "u:" + tp
 		case "truncate":
 			tok = fmt.Sprintf("t:%s:%d", tp, o.size)
 		}
-		groups = append(groups, group{token: tok, last: j})
+		g.groups = append(g.groups, group{token: tok, last: j})
 	}
-	groupOfOp := make([]int, len(ops)+1) // number of groups completed by the first n real operations
+	groupOfOp := make([]int, len(g.ops)+1)
 	{
-		g := 0
-		for n := 0; n <= len(ops); n++ {
-			for g < len(groups) && groups[g].last < n {
-				g++
+		k := 0
+		for n := 0; n <= len(g.ops); n++ {
+			for k < len(g.groups) && g.groups[k].last < n {
+				k++
 			}
-			groupOfOp[n] = g
+			groupOfOp[n] = k
 		}
 	}
-	for _, i := range callIdx {
-		res, ok := results[i]
-		if !ok {
+	for _, i := range idx {
+		res, found := results[i]
+		if !found {
 			outs[i] = "panic:child"
 			continue
 		}
@@ -583,49 +663,136 @@ func (p *prop) Exec(lines []string) []string {
 			continue
 		}
 		var toks []string
-		for g := groupOfOp[start[i]]; g < groupOfOp[stop[i]]; g++ {
-			toks = append(toks, groups[g].token)
-			vh.Count("fsop:" + groups[g].token[:1])
+		for k := groupOfOp[start[i]]; k < groupOfOp[stop[i]]; k++ {
+			toks = append(toks, g.groups[k].token)
+			vh.Count("fsop:" + g.groups[k].token[:1])
 		}
 		outs[i] = strings.Join(append(toks, res), " ")
 	}
+	return g, newKinds, newKeysOpen, true
+}
+
+// crashFiles returns the files a kill right after model-level operation k of g leaves behind.
+func (g *generation) crashFiles(k int) map[string][]byte {
+	n := 0
+	if k > 0 {
+		n = g.groups[k-1].last + 1
+	}
+	return replayFS(g.base, g.ops, n)
+}
+
+func (p *prop) Exec(lines []string) []string {
+	outs := make([]string, len(lines))
+	dir, err := os.MkdirTemp("", "c09-")
+	if err != nil {
+		panic(err)
+	}
+	defer os.RemoveAll(dir)
+	// split into process generations at the restart lines
+	type seg struct {
+		calls   []int // call lines
+		crashes []int // crash lines
+		restart int   // index of the restart line that ends it, -1
+	}
+	segs := []*seg{{restart: -1}}
 	for i, l := range lines {
-		if !strings.HasPrefix(l, "crash") {
-			continue
+		cur := segs[len(segs)-1]
+		switch {
+		case strings.HasPrefix(l, "crash"):
+			cur.crashes = append(cur.crashes, i)
+		case strings.HasPrefix(l, "restart"):
+			cur.restart = i
+			segs = append(segs, &seg{restart: -1})
+		default:
+			cur.calls = append(cur.calls, i)
 		}
-		ws := strings.Fields(l)
-		if len(ws) != 2 {
-			outs[i] = "bad-op"
-			continue
-		}
-		k, err := strconv.Atoi(ws[1])
-		if err != nil || k < 0 {
-			outs[i] = "bad-op"
-			continue
-		}
-		if k > len(groups) {
-			outs[i] = "end"
-			continue
-		}
-		n := 0
-		if k > 0 {
-			n = groups[k-1].last + 1
-		}
-		out := recoverState(root, replayFS(ops, n), kinds, filepath.Join(dir, "rec"))
-		// a partly written snapshot file must be invisible: the prefixes inside group k+1 recover
-		// like prefix k
-		if k < len(groups) {
-			for m := n + 1; m <= groups[k].last; m++ {
-				if o2 := recoverState(root, replayFS(ops, m), kinds, filepath.Join(dir, "rec")); o2 != out {
-					out = o2 + " partial-snapshot-visible"
+	}
+	base := map[string][]byte{}
+	var kinds []string
+	keysOpen := false
+	recDir := filepath.Join(dir, "rec")
+	for gi, sg := range segs {
+		g, nk, nko, ok := runGeneration(dir, gi, base, kinds, keysOpen, lines, sg.calls, outs)
+		if !ok {
+			for _, i := range append(sg.crashes, sg.restart) {
+				if i >= 0 {
+					outs[i] = "panic:timeout"
 				}
-				vh.Count("partial-prefixes")
 			}
+			for _, rest := range segs[gi+1:] {
+				for _, i := range append(append(rest.calls, rest.crashes...), rest.restart) {
+					if i >= 0 {
+						outs[i] = "panic:timeout"
+					}
+				}
+			}
+			return outs
 		}
-		outs[i] = out
-		vh.Count("recoveries")
-		if strings.Contains(out, "err") {
-			vh.Count("recover-err")
+		kinds, keysOpen = nk, nko
+		answer := func(i int, clamp bool) (map[string][]byte, bool) {
+			ws := strings.Fields(lines[i])
+			if len(ws) != 2 {
+				outs[i] = "bad-op"
+				return nil, false
+			}
+			k, err := strconv.Atoi(ws[1])
+			if err != nil || k < 0 {
+				outs[i] = "bad-op"
+				return nil, false
+			}
+			if k > len(g.groups) {
+				if !clamp {
+					outs[i] = "end"
+					return nil, false
+				}
+				k = len(g.groups)
+			}
+			files := g.crashFiles(k)
+			out := recoverState(files, kinds, recDir)
+			// a partly written snapshot file must be invisible: the prefixes inside group k+1 recover
+			// like prefix k
+			if k < len(g.groups) {
+				n := 0
+				if k > 0 {
+					n = g.groups[k-1].last + 1
+				}
+				for m := n + 1; m <= g.groups[k].last; m++ {
+					if o2 := recoverState(replayFS(g.base, g.ops, m), kinds, recDir); o2 != out {
+						out = o2 + " partial-snapshot-visible"
+					}
+					vh.Count("partial-prefixes")
+				}
+			}
+			outs[i] = out
+			vh.Count("recoveries")
+			if strings.Contains(out, "err") {
+				vh.Count("recover-err")
+			}
+			return files, true
+		}
+		for _, i := range sg.crashes {
+			answer(i, false)
+		}
+		if sg.restart >= 0 {
+			files, ok := answer(sg.restart, true)
+			if !ok {
+				files = g.crashFiles(len(g.groups))
+			}
+			// leftovers stay where the kill left them; where it left none a long one is planted,
+			// and .copying / .temp files for every fragment
+			for i := range kinds {
+				sp := fmt.Sprintf("f%d.snapshotting", i)
+				if _, has := files[sp]; !has {
+					files[sp] = garbage(4096)
+					vh.Count("planted-snapshotting")
+				} else {
+					vh.Count("real-leftover-snapshotting")
+				}
+				files[fmt.Sprintf("f%d.copying", i)] = garbage(100)
+				files[fmt.Sprintf("f%d.temp", i)] = garbage(100)
+			}
+			base = files
+			vh.Count("restarts")
 		}
 	}
 	return outs
@@ -678,6 +845,31 @@ func childMain(root, markPath, opsFile string) {
 	}
 	for _, l := range strings.Split(strings.TrimSpace(string(data)), "\n") {
 		ws := strings.Fields(l)
+		if len(ws) == 2 && ws[0] == "R" { // reopen an existing fragment (new process generation)
+			f, err := pilosa.VerifC09OpenFragment(filepath.Join(root, fmt.Sprintf("f%d", len(frags))), ws[1], 1000000, true)
+			if err != nil {
+				fmt.Fprintf(out, "reopen-failed %d\n", len(frags))
+				out.Flush()
+				return
+			}
+			depth := uint(0)
+			if ws[1] == "int" {
+				depth = 3
+			}
+			frags = append(frags, &cfrag{f: f, kind: ws[1], depth: depth})
+			continue
+		}
+		if len(ws) == 1 && ws[0] == "K" {
+			t := pilosa.NewTranslateFile(pilosa.OptTranslateFileMapSize(1 << 20))
+			t.Path = filepath.Join(root, "keys")
+			if err := t.Open(); err != nil {
+				fmt.Fprintf(out, "reopen-failed keys\n")
+				out.Flush()
+				return
+			}
+			tf = t
+			continue
+		}
 		if len(ws) < 2 {
 			continue
 		}
@@ -817,7 +1009,7 @@ func childMain(root, markPath, opsFile string) {
 					return "err", ""
 				}
 				tf = t
-				return "ok", ""
+				return "ok", "keysopen"
 			case "keys":
 				if tf == nil {
 					return "bad-ref", ""
